@@ -100,7 +100,7 @@ Fixpoint sepmodes (modes : str) (last : N) (args : list str) : list (N * N * mva
 Definition separateModes (args : list str) : list (N * N * mval) :=
   match args with [] => [] | m :: rest => sepmodes m PLUS rest end.
 
-(* ---- ircutils.isUserHostmask: ^\S+!\S+@\S+$ ; splitHostmask: rsplit('!',1), rsplit('@',1) ---- *)
+(* ---- ircutils.isUserHostmask: ^\S+!\S+@\S+$ ; splitHostmask: rest, host = rsplit('@',1); nick, user = rest.rsplit('!',1) ---- *)
 Definition ws (c : N) : bool := mem c gen.T03.WHITESPACE.
 (* an '@' with at least one char before and one after *)
 Fixpoint at_mid (s : str) : bool :=
@@ -123,11 +123,11 @@ Definition rsplit1 (c : N) (s : str) : option (str * str) :=
   | None => None
   end.
 Definition splitHostmask (s : str) : option (str * str * str) :=
-  match rsplit1 BANG s with
-  | Some (nick, rest) =>
-      match rsplit1 ATC rest with
-      | Some (user, host) => Some (nick, user, host)
-      | None => None                                        (* ValueError: unpack *)
+  match rsplit1 ATC s with
+  | Some (rest, host) =>
+      match rsplit1 BANG rest with
+      | Some (nick, user) => Some (nick, user, host)
+      | None => None                                        (* ValueError: unpack (unreachable, C05) *)
       end
   | None => None
   end.
@@ -139,7 +139,7 @@ Record msg := Msg { m_prefix : str; m_command : str; m_args : list str }.
 Definition msg_nuh (m : msg) : str * str * str :=
   let p := m_prefix m in
   if isUserHostmask p then
-    match splitHostmask p with Some t => t | None => (p, p, p) (* constructor raises: not fed *) end
+    match splitHostmask p with Some t => t | None => (p, p, p) (* unreachable: C05_split_hostmask_total *) end
   else (p, p, p).
 Definition msg_nick (m : msg) : str := fst (fst (msg_nuh m)).
 Definition msg_user (m : msg) : str := snd (fst (msg_nuh m)).
